@@ -4,6 +4,8 @@ import (
 	"bytes"
 	"io"
 
+	"github.com/acarl005/stripansi"
+	"github.com/mattn/go-runewidth"
 	"github.com/vbauerster/mpb/v8/decor"
 )
 
@@ -78,12 +80,24 @@ func BarFillerOnComplete(message string) BarOption {
 	return BarFillerMiddleware(func(base BarFiller) BarFiller {
 		return BarFillerFunc(func(w io.Writer, st decor.Statistics) error {
 			if st.Completed {
-				_, err := io.WriteString(w, message)
-				return err
+				return fillMessage(w, message, st.AvailableWidth)
 			}
 			return base.Fill(w, st)
 		})
 	})
+}
+
+// fillMessage writes message truncated to the available width, the
+// same way the decorators are truncated.
+func fillMessage(w io.Writer, message string, width int) (err error) {
+	if stripped := stripansi.Strip(message); runewidth.StringWidth(stripped) > width {
+		if width <= 0 {
+			return nil
+		}
+		message = runewidth.Truncate(stripped, width, "…")
+	}
+	_, err = io.WriteString(w, message)
+	return err
 }
 
 // BarFillerClearOnAbort clears bar's filler on abort event.
@@ -97,8 +111,7 @@ func BarFillerOnAbort(message string) BarOption {
 	return BarFillerMiddleware(func(base BarFiller) BarFiller {
 		return BarFillerFunc(func(w io.Writer, st decor.Statistics) error {
 			if st.Aborted {
-				_, err := io.WriteString(w, message)
-				return err
+				return fillMessage(w, message, st.AvailableWidth)
 			}
 			return base.Fill(w, st)
 		})
